@@ -50,6 +50,18 @@ def thrust(p, m, T, h, v, rocd, acc, in_cruise):
     return thr, branch
 
 
+def total_energy_terms(p, m, T, h, v, rocd, acc):
+    """-> (total-energy thrust, sum of the magnitudes of its terms): how well the sum is
+    determined in floating point at all when drag and the (negative) potential / kinetic
+    energy rates cancel"""
+    rho = isa.pressure(h) / (R_AIR * T)
+    cl = 2.0 * m * G0 / (rho * p['S_ref'] * v * v)
+    cd = p['c_d0cr'] + p['c_d2cr'] * cl * cl
+    drag = 0.5 * rho * p['S_ref'] * v * v * cd
+    return (drag + m * (G0 * rocd / v + acc),
+            abs(drag) + abs(m * G0 * rocd / v) + abs(m * acc))
+
+
 def fuel_flow(p, thr, v, in_cruise):
     """kg/s"""
     vkt = v * MS2KT
